@@ -21,7 +21,7 @@ RULE = ('generated documents biased to aliases, schemas, enum-typed columns, inl
         'non-trivial: >= 1 reference, or an enum-typed column, or a table group; distinct by sha1 of the text')
 ASSUMPTIONS = ['aliases are disjoint from table names (an alias equal to another table\'s name has no defined DBML meaning)',
                'the SQL key-holder clause is observed through pydbml.renderer.sql.default.table.get_references_for_sql']
-FLOORS = {'quick': {'has_alias': 20, 'enum_col': 30, 'inline_ref': 30, 'composite_ref': 10, 'has_group': 30},
+FLOORS = {'quick': {'has_alias': 20, 'same_name_two_schemas': 100, 'enum_col': 30, 'inline_ref': 30, 'composite_ref': 10, 'has_group': 30},
           'thorough': {'has_alias': 200, 'enum_col': 300, 'inline_ref': 300, 'composite_ref': 100, 'has_group': 300}}
 
 
